@@ -333,8 +333,14 @@ func Derived(v ssa.Value) map[ssa.Value]bool {
 				if r.Val != x {
 					continue
 				}
-				al, ok := r.Addr.(*ssa.Alloc)
-				if !ok {
+				// a local cell: an Alloc, or (inside a closure) a variable captured from the enclosing function
+				var al ssa.Value
+				switch a := r.Addr.(type) {
+				case *ssa.Alloc:
+					al = a
+				case *ssa.FreeVar:
+					al = a
+				default:
 					continue
 				}
 				// loads of the cell that this store reaches before any other store in straight-line order
@@ -350,7 +356,7 @@ func Derived(v ssa.Value) map[ssa.Value]bool {
 
 // loadsReachedBy finds the loads (in the same function) of cell al that observe store st: loads dominated by st with no other
 // store to al on any path in between.
-func loadsReachedBy(st *ssa.Store, al *ssa.Alloc) []ssa.Value {
+func loadsReachedBy(st *ssa.Store, al ssa.Value) []ssa.Value {
 	var stores []*ssa.Store
 	var loads []*ssa.UnOp
 	if al.Referrers() == nil {
@@ -363,7 +369,7 @@ func loadsReachedBy(st *ssa.Store, al *ssa.Alloc) []ssa.Value {
 				stores = append(stores, r)
 			}
 		case *ssa.UnOp:
-			if r.Op == token.MUL && r.Parent() == st.Parent() {
+			if r.Op == token.MUL && r.X == al && r.Parent() == st.Parent() {
 				loads = append(loads, r)
 			}
 		}
@@ -804,6 +810,10 @@ func classifyErrVal(v ssa.Value, failVals map[ssa.Value]bool, depth int, at *ssa
 	}
 	if at != nil && KnownNonNilAt(v, at) {
 		return RetFailure
+	}
+	// `err` captured by a function literal is a variable cell: look through the load to the store that provides the value
+	if st := ReachingStore(v); st != nil {
+		return classifyErrVal(st.Val, failVals, depth+1, at)
 	}
 	switch x := v.(type) {
 	case *ssa.UnOp:
